@@ -38,9 +38,19 @@ pub enum Kind {
 }
 const KINDS: [Kind; 4] = [Kind::Var, Kind::Block, Kind::Comment, Kind::Raw];
 
+/// how the inside of a tag is written: padded with blanks, without any blank, or (comments) with no
+/// body at all — the markers then sit directly against each other or against the delimiters
+#[derive(Clone, Copy, Debug, PartialEq, Eq)]
+pub enum Body {
+    Padded,
+    Tight,
+    Empty,
+}
+
 #[derive(Clone, Debug)]
 pub struct Tag {
     pub kind: Kind,
+    pub body: Body,
     pub left: Mk,
     pub right: Mk,
     // raw only
@@ -52,6 +62,13 @@ pub struct Tag {
 impl Tag {
     fn source(&self) -> String {
         let (l, r) = (self.left.s(), self.right.s());
+        match (self.kind, self.body) {
+            (Kind::Var, Body::Tight) => return format!("{{{{{}v{}}}}}", l, r),
+            (Kind::Block, Body::Tight) => return format!("{{%{}set x = 1{}%}}", l, r),
+            (Kind::Comment, Body::Tight) => return format!("{{#{}c{}#}}", l, r),
+            (Kind::Comment, Body::Empty) => return format!("{{#{}{}#}}", l, r),
+            _ => {}
+        }
         match self.kind {
             Kind::Var => format!("{{{{{} v {}}}}}", l, r),
             Kind::Block => format!("{{%{} set x = 1 {}%}}", l, r),
@@ -203,7 +220,24 @@ fn outer_tags() -> Vec<Tag> {
     for kind in KINDS {
         for l in MKS {
             for r in MKS {
-                v.push(Tag { kind, left: l, right: r, inner_l: Mk::None, inner_r: Mk::None, content: "\n r \n" });
+                v.push(Tag { kind, body: Body::Padded, left: l, right: r, inner_l: Mk::None, inner_r: Mk::None, content: "\n r \n" });
+            }
+        }
+    }
+    v
+}
+
+/// tags written without blanks and comments without a body.  `{#-#}` is a comment with a left
+/// marker and no right one, so body-less comments with only a right marker are not a distinct source
+fn compact_tags() -> Vec<Tag> {
+    let mut v = vec![];
+    for (kind, body) in [(Kind::Var, Body::Tight), (Kind::Block, Body::Tight), (Kind::Comment, Body::Tight), (Kind::Comment, Body::Empty)] {
+        for l in MKS {
+            for r in MKS {
+                if body == Body::Empty && l == Mk::None && r != Mk::None {
+                    continue;
+                }
+                v.push(Tag { kind, body, left: l, right: r, inner_l: Mk::None, inner_r: Mk::None, content: "" });
             }
         }
     }
@@ -223,7 +257,7 @@ fn build_source(texts: &[&str], tags: &[Tag]) -> String {
 
 fn case_json(texts: &[&str], tags: &[Tag], ci: usize) -> J {
     json!({"family": "ws", "texts": texts, "cfg": ci,
-        "tags": tags.iter().map(|t| json!({"kind": format!("{:?}", t.kind), "left": t.left.s(), "right": t.right.s(), "inner_l": t.inner_l.s(), "inner_r": t.inner_r.s(), "content": t.content})).collect::<Vec<_>>()})
+        "tags": tags.iter().map(|t| json!({"kind": format!("{:?}", t.kind), "body": format!("{:?}", t.body), "left": t.left.s(), "right": t.right.s(), "inner_l": t.inner_l.s(), "inner_r": t.inner_r.s(), "content": t.content})).collect::<Vec<_>>()})
 }
 
 fn check_ws_case(envs: &[Environment<'static>], cfgs: &[Cfg], texts: &[&str], tags: &[Tag], ci: usize, acc: &Acc, l: &mut Local) {
@@ -236,9 +270,10 @@ fn check_ws_case(envs: &[Environment<'static>], cfgs: &[Cfg], texts: &[&str], ta
         let kinds: Vec<String> = tags.iter().map(|t| format!("{:?}", t.kind)).collect();
         Failure {
             key: format!(
-                "ws {} tags=[{}] trim_blocks={} lstrip_blocks={} raw_inner={}",
+                "ws {} tags=[{}]{} trim_blocks={} lstrip_blocks={} raw_inner={}",
                 class,
                 kinds.join(","),
+                if tags.iter().any(|t| t.body != Body::Padded) { " compact_body" } else { "" },
                 cfg.trim_blocks,
                 cfg.lstrip_blocks,
                 tags.iter().any(|t| t.kind == Kind::Raw && (t.inner_l != Mk::None || t.inner_r != Mk::None || t.content != "\n r \n"))
@@ -557,6 +592,11 @@ pub fn main(args: Args) -> i32 {
                             "Comment" => Kind::Comment,
                             _ => Kind::Raw,
                         },
+                        body: match t["body"].as_str() {
+                            Some("Tight") => Body::Tight,
+                            Some("Empty") => Body::Empty,
+                            _ => Body::Padded,
+                        },
                         left: mk_from(t["left"].as_str().unwrap()),
                         right: mk_from(t["right"].as_str().unwrap()),
                         inner_l: mk_from(t["inner_l"].as_str().unwrap()),
@@ -672,7 +712,7 @@ pub fn main(args: Args) -> i32 {
                 for il in MKS {
                     for ir in MKS {
                         for c in contents {
-                            raws.push(Tag { kind: Kind::Raw, left: l, right: r, inner_l: il, inner_r: ir, content: c });
+                            raws.push(Tag { kind: Kind::Raw, body: Body::Padded, left: l, right: r, inner_l: il, inner_r: ir, content: c });
                         }
                     }
                 }
@@ -693,6 +733,52 @@ pub fn main(args: Args) -> i32 {
         });
         acc.count("ws_raw_inner_sources", total);
     }
+    // family D: tags written without blanks and body-less comments, alone between all texts and next
+    // to every ordinary tag over the core texts
+    {
+        let compact = compact_tags();
+        let nc = compact.len() as u64;
+        let texts = TEXTS_FULL;
+        let nx = texts.len() as u64;
+        let total = nx * nx * nc;
+        par_chunks(total, 1024, &acc, |r, l| {
+            let envs: Vec<Environment<'static>> = cfgs.iter().map(|c| make_env(*c)).collect();
+            for n in r {
+                let ti = (n % nc) as usize;
+                let x1 = ((n / nc) % nx) as usize;
+                let x0 = (n / nc / nx) as usize;
+                for ci in 0..cfgs.len() {
+                    check_ws_case(&envs, &cfgs, &[texts[x0], texts[x1]], &[compact[ti].clone()], ci, &acc, l);
+                }
+            }
+        });
+        let core = TEXTS_CORE;
+        let ncx = core.len() as u64;
+        let total2 = ncx.pow(3) * nc * nt * 2;
+        par_chunks(total2, 4096, &acc, |r, l| {
+            let envs: Vec<Environment<'static>> = cfgs.iter().map(|c| make_env(*c)).collect();
+            for n in r {
+                let mut k = n;
+                let order = k % 2;
+                k /= 2;
+                let t2 = (k % nt) as usize;
+                k /= nt;
+                let t1 = (k % nc) as usize;
+                k /= nc;
+                let x2 = (k % ncx) as usize;
+                k /= ncx;
+                let x1 = (k % ncx) as usize;
+                k /= ncx;
+                let x0 = k as usize;
+                let tx = [core[x0], core[x1], core[x2]];
+                let tg = if order == 0 { [compact[t1].clone(), tags[t2].clone()] } else { [tags[t2].clone(), compact[t1].clone()] };
+                for ci in 0..cfgs.len() {
+                    check_ws_case(&envs, &cfgs, &tx, &tg, ci, &acc, l);
+                }
+            }
+        });
+        acc.count("ws_compact_body_sources", total + total2);
+    }
     // delimiter metamorphosis over the program corpus
     let opts2 = gen::Opts { depth: 2, max_programs: u64::MAX, multi_template: false, loop_controls: true };
     check_delims(opts2, 1, &acc);
@@ -710,7 +796,7 @@ pub fn main(args: Args) -> i32 {
             level: "exploration",
             tier: args.tier,
             seed: args.seed,
-            rule: "whitespace: every source text0 tag1 text1 tag2 text2 over a 14-text alphabet and 36 tags ({variable, set tag, comment, raw..endraw} x left marker x right marker in {none,-,+}) x 8 settings (thorough: plus three tags over a 6-text core alphabet); every single raw block with all 81 outer/inner marker combinations x 6 contents x 14^2 texts x 8 settings; engine output compared with an independent model of the rules as the property names them (lstrip judged on the original source). delimiters: every program of the depth-2 space of G (thorough: plus every 29th program of the depth-3 space, a systematic subset, reported under delimiter_program_stride) x 3 contexts rewritten token by token to each of 10 delimiter sets must render identically (or fail with the same error kind); default-looking delimiters as text must come out verbatim; line statements/comments compared with the tag occupying the line. distinct non-trivial = distinct one- and two-tag sources in which trim_blocks+lstrip_blocks strips something (three-tag sources are not counted, conservatively) + distinct rewritten sources".into(),
+            rule: "whitespace: every source text0 tag1 text1 tag2 text2 over a 14-text alphabet and 36 tags ({variable, set tag, comment, raw..endraw} x left marker x right marker in {none,-,+}) x 8 settings (thorough: plus three tags over a 6-text core alphabet); 34 tags written without blanks or, for comments, without a body ({{-v-}}, {%-set x = 1-%}, {#-c-#}, {#-#}, {#--#}, {##} ...) alone between all texts and next to every ordinary tag over the core texts; every single raw block with all 81 outer/inner marker combinations x 6 contents x 14^2 texts x 8 settings; engine output compared with an independent model of the rules as the property names them (lstrip judged on the original source). delimiters: every program of the depth-2 space of G (thorough: plus every 29th program of the depth-3 space, a systematic subset, reported under delimiter_program_stride) x 3 contexts rewritten token by token to each of 10 delimiter sets must render identically (or fail with the same error kind); default-looking delimiters as text must come out verbatim; line statements/comments compared with the tag occupying the line. distinct non-trivial = distinct one- and two-tag sources in which trim_blocks+lstrip_blocks strips something (three-tag sources are not counted, conservatively) + distinct rewritten sources".into(),
             exhaustive: true,
             bound: json!({"texts": TEXTS_FULL, "texts_core": TEXTS_CORE, "delimiter_sets": delim_family().iter().map(|d| d.name).collect::<Vec<_>>()}),
             assumptions: vec![
